@@ -20,7 +20,7 @@ from .hmcmass import momentum_obligations
 
 FLOORS = {"accept-form": 5, "accept-orientation": 5, "accept-shortcut": 4, "temper": 8,
           "new-old-binding": 2, "proposal-symmetric": 4, "stretch": 3, "hmc-fresh-momentum": 1,
-          "momentum-samples-kinetic": 3}
+          "momentum-samples-kinetic": 3, "reloaded-temperature": 1}
 
 OPAQUE = {"inv_temp", "n_parameters", "n_walkers", "posterior", "rng", "mass", "ES", "params",
           "directions", "max_attempts", "steps", "bounds", "process_proposal", "walker_positions",
@@ -69,8 +69,15 @@ def enclosing_loop_body(fn, node):
 
 
 def run(prog, tier):
+    # a chain saved at temperature T and reloaded must go on targeting posterior^(1/T): the inverse temperature handed back through
+    # the constructor is the one that was saved - the clause C01 shares with C09, decided there
+    from .common import borrow
+    shared = [o for o in borrow(prog, tier, "C09", {"ctor-arg-roundtrip"}, "reloaded-temperature",
+                                "every accept test multiplies the log-density by inv_temp; a reloaded chain with another inv_temp samples another density")
+              if "temperature" in o.construct or "inv_temp" in o.construct]
     anf.reset()
     obs, info = [], []
+    obs.extend(shared)
 
     sites = [("MetropolisChain", "take_step"), ("GibbsChain", "take_step"), ("PcaChain", "take_step"),
              ("HamiltonianChain", "take_step"), ("EnsembleSampler", "__advance_walker")]
